@@ -24,6 +24,23 @@ def repo():
               script=script)
 
 
+def is_obj(c, v):
+    from pyvc.engine import ObjView
+    return isinstance(v, Ref) and isinstance(c.heap.get(v.oid), HObj)
+
+
+def mk_node(B, cls, children=None, **kw):
+    """a node object built by the class's OWN constructor (so the contracts do not depend on the slot
+    layout); its children list is then replaced by an arbitrary symbolic list"""
+    ctx = B.ctx
+    n_before = len(ctx.writes)
+    ref = ctx.instantiate(cls, [], kw)
+    if children is not None:
+        ctx.setattr(ref, "children", children)
+    del ctx.writes[n_before:]
+    return ref
+
+
 def sym_sec33(B, name):
     """a valid 33-byte compressed SEC encoding (symbolic: any accepted encoding; concrete: the
     encoding of a real point derived from the model's value)"""
@@ -52,9 +69,9 @@ def sym_parent(B, tag, private=True):
         k = None
         key, _ = sym_sec33(B, f"{tag}_key")
         cls = R.bip32.PubKeyNode
-    return B.obj(cls, key=key, chain_code=B.bytes(f"{tag}_cc", 32), depth=B.int(f"{tag}_depth", 0, 255),
-                 index=B.int(f"{tag}_index", 0, 2 ** 32), testnet=B.bool(f"{tag}_testnet"), parent=None,
-                 parsed_parent_fingerprint=None, parsed_version=None, children=B.list_sym(f"{tag}_children")), k
+    return mk_node(B, cls, key=key, chain_code=B.bytes(f"{tag}_cc", 32), depth=B.int(f"{tag}_depth", 0, 255),
+                   index=B.int(f"{tag}_index", 0, 2 ** 32), testnet=B.bool(f"{tag}_testnet"), parent=None,
+                   parent_fingerprint=None, children=B.list_sym(f"{tag}_children")), k
 
 
 def sym_prv_node(B, tag="self", with_parent=True, depth_hi=256):
@@ -77,8 +94,8 @@ def sym_prv_node(B, tag="self", with_parent=True, depth_hi=256):
         elif c == 2:
             ppf = B.bytes(f"{tag}_ppf", 4)
     children = B.list_sym(f"{tag}_children")
-    ref = B.obj(R.bip32.PrvKeyNode, key=key, chain_code=cc, depth=depth, index=index, testnet=testnet,
-                parent=parent, parsed_parent_fingerprint=ppf, parsed_version=None, children=children)
+    ref = mk_node(B, R.bip32.PrvKeyNode, key=key, chain_code=cc, depth=depth, index=index, testnet=testnet,
+                  parent=parent, parent_fingerprint=ppf, children=children)
     return ref, NS(ref=ref, k=k, key=key, cc=cc, depth=depth, index=index, testnet=testnet, parent=parent,
                    parent_k=pk, ppf=ppf, children=children, keyform=form, private=True)
 
@@ -100,8 +117,8 @@ def sym_pub_node(B, tag="self", with_parent=True, depth_hi=256):
         elif c == 2:
             ppf = B.bytes(f"{tag}_ppf", 4)
     children = B.list_sym(f"{tag}_children")
-    ref = B.obj(R.bip32.PubKeyNode, key=key, chain_code=cc, depth=depth, index=index, testnet=testnet,
-                parent=parent, parsed_parent_fingerprint=ppf, parsed_version=None, children=children)
+    ref = mk_node(B, R.bip32.PubKeyNode, key=key, chain_code=cc, depth=depth, index=index, testnet=testnet,
+                  parent=parent, parent_fingerprint=ppf, children=children)
     return ref, NS(ref=ref, k=None, key=key, pt=pt, cc=cc, depth=depth, index=index, testnet=testnet,
                    parent=parent, ppf=ppf, children=children, private=False)
 
